@@ -206,6 +206,10 @@ def run(ctx):
     ps["alt-rotamers-AB"] = C.body(dict(c08.constructed(ctx))["alt-rotamers-AB"])
     ma = [("1HPX-A", "alt-rotamers-AB", 600000, (1, 0, 0), 0, False), ("1HPX-A", "alt-rotamers-AB", 45000, (0, -1, 0), 1, False)]
     combos += ma if ctx.thorough() else [ma[ctx.seed % 2]]
+    # ... and a part with insertion-coded residues of different types on one number (3SGB E 48, 48A-D) next to it: the second
+    # conformation of the union is completed with every one of them
+    ps["frag-3SGB-E-ins48"] = C.chain_lines("3SGB", "E", 19, 16)
+    combos.append(("frag-3SGB-E-ins48", "alt-rotamers-AB", 300000, (0, 1, 0), ctx.seed % 2, False))
     # earlier work in the same process - a run under a parameter file with much larger cut-offs - leaves nothing behind
     from . import c02
     prime = c02.param_file({"desolv_cutoff": 100.0, "buried_cutoff": 80.0, "coulomb_cutoff2": 40.0}, "wide-cutoffs")
